@@ -234,6 +234,43 @@ pub fn scenario(family: &str, seed: u64) -> Scenario {
             sc.rebinds.sort();
             sc.deadline_us = 400_000_000;
         }
+        // the network dies for good at some point of the handshake or transfer: both applications must learn it
+        "blackhole" => {
+            let at = pick(rng, &[1_000u64, 30_000, 90_000, 200_000, 600_000, 2_000_000]);
+            let dir = pick(rng, &["both", "both", "c2s", "s2c"]);
+            net.blackhole.push((dir.to_string(), at, u64::MAX / 4));
+            for l in [&mut sc.c, &mut sc.s] {
+                l.idle_ms = pick(rng, &[2_000u64, 5_000, 10_000]);
+            }
+            let n = rng.random_range(1..4);
+            sc.streams = streams(rng, n, 200_000);
+            sc.deadline_us = 100_000_000;
+            sc.close = "none".into();
+            // keep the simulation alive until both idle timers must have fired
+            sc.linger_us = at + 45_000_000;
+        }
+        // finite outages (one or both directions, possibly several) shorter than the idle timeout, then a perfect network
+        "heal" => {
+            let n_out = rng.random_range(1..4);
+            let mut t = pick(rng, &[1_000u64, 40_000, 150_000, 700_000]);
+            for _ in 0..n_out {
+                let dur = pick(rng, &[100_000u64, 800_000, 3_000_000, 9_000_000]);
+                net.blackhole.push((pick(rng, &["both", "c2s", "s2c"]).to_string(), t, t + dur));
+                t += dur + pick(rng, &[50_000u64, 500_000, 2_000_000]);
+            }
+            net.drop = pick(rng, &[0u32, 100]);
+            net.heal_at_us = Some(t);
+            for l in [&mut sc.c, &mut sc.s] {
+                l.idle_ms = 30_000;
+                l.data_window = pick(rng, &[2000u64, 1 << 20]);
+                l.sd_bidi_local = pick(rng, &[1000u64, 1 << 18]);
+                l.sd_bidi_remote = pick(rng, &[1000u64, 1 << 18]);
+                l.streams_bidi = pick(rng, &[1u64, 100]);
+            }
+            let n = rng.random_range(1..4);
+            sc.streams = streams(rng, n, 20_000);
+            sc.deadline_us = 200_000_000;
+        }
         _ => panic!("unknown family {family}"),
     }
     // vectored / buffered writers are interesting when the send buffer is smaller than one application write
